@@ -987,7 +987,10 @@ class BaseImage(metaclass=ImageMeta):
 
         if not method:
             if cls._render_methods:
-                cls._render_method = cls._default_render_method
+                if "_default_render_method" in vars(cls):  # defines the render methods
+                    cls._render_method = cls._default_render_method
+                elif "_render_method" in vars(cls):  # subclass; use that of the parent
+                    del cls._render_method
         else:
             cls._render_method = method
 
